@@ -556,8 +556,8 @@ def run_cases(ctx, cases, replaying=False):
             ctx.break_("correspondence:coqc-evaluation(nl)", "\n".join(errs))
         for k, i in enumerate(nl_idx):
             code = codes.get(k)
-            if code is None:
-                continue
+            if code is None:      # not evaluated (coqc error): agrees with nothing
+                code = 3
             if code in (1, 3):
                 cur_bad.add(i)
             if code in (2, 3):
@@ -595,8 +595,10 @@ def run_cases(ctx, cases, replaying=False):
         hist["pairs_within"] += nwithin
         ctx.count(summary(c), nontrivial=nwithin > 0,
                   bucket="%s/%s/%s/%s%s" % (c["api"], c.get("kind"), c.get("dist"), c.get("cmode"), "" if inside else "/outside-cell"))
-        tie_ok = (i not in nb_bad) if c["api"] == "nb" else (variant is not None and i not in (cur_bad if variant == KNOWN_VARIANT else fix_bad))
-        explained = variant if (c["api"] == "nl" and tie_ok and variant == KNOWN_VARIANT) else None
+        # attribution is per frame (so that the replay of the case alone gives the same verdict): a miss is the known
+        # defect when the as-found model reproduces the implementation on this frame; a run whose frames do not all
+        # follow one variant is reported separately as a broken correspondence
+        explained = KNOWN_VARIANT if (c["api"] == "nl" and i not in cur_bad) else None
         cd = o.get("cd") or {}
         if in_q and cd:
             hist["cd_band_pairs"] += cd.get("band", 0)
@@ -610,7 +612,11 @@ def run_cases(ctx, cases, replaying=False):
             what = {"missing": "misses atoms within the cutoff", "spurious": "reports atoms beyond the cutoff"}.get(kind, kind)
             where = "" if inside else " (atoms outside the primary cell)"
             desc = "%s %s%s" % (api, what, where)
+            nvox = None
+            if Br is not None:
+                nvox = min(max(1, (10 * int(Br[k, k] * G // c["c"]) + 3) // 6) for k in (1, 2))   # voxels along y, z
             tags = {"api": c["api"], "kind": kind, "outside_cell": not inside, "cell": (c.get("kind") or "").split("/")[0],
+                    "nvox_min": nvox,
                     "explained_by": explained if kind == "missing" else None}
             ctx.fail(desc, c, observed={"detail": detail, "n_atoms": len(c["xyz"]), "cutoff_nm": c["c"] / G},
                      expected="exactly the atoms whose minimum-image distance is below the cutoff (pairs within 1e-5 excluded)",
@@ -655,6 +661,9 @@ FIXED_PROBES = [
     # the same pair inside the cell
     {"api": "nl", "xyz": [[100, 2200, 100], [100, 2000, 100]], "cell": {"lengths": [4096, 4096, 4096], "angles": [90.0, 90.0, 90.0]},
      "c": 1024, "periodic": True, "kind": "cubic", "dist": "probe", "cmode": "mid"},
+    # the 2-atom witness of Props/C10.v nlist_complete_triclinic_incell_refuted (flat skewed cell, three z voxels)
+    {"api": "nl", "xyz": [[2704, 842, 452], [2704, 677, 1017]], "cell": {"lengths": [4323, 3767, 2570], "angles": [116.086, 62.917, 63.62]},
+     "c": 676, "periodic": True, "kind": "tric", "dist": "probe", "cmode": "half"},
     {"api": "nb", "xyz": [[100, 2200, 100], [100, 6096, 100], [3000, 3000, 3000]],
      "cell": {"lengths": [4096, 4096, 4096], "angles": [90.0, 90.0, 90.0]}, "c": 1024, "periodic": True,
      "kind": "cubic", "dist": "probe", "cmode": "mid", "query": [0], "hay": None},
